@@ -24,7 +24,7 @@ use crate::classic::crypto_kdf::*;
 
 fn c12_check_transcript(len: usize, id: u64, ctx: &[u8; 8], key: &[u8; 32], sub: &[u8]) {
     unsafe {
-        assert!(B2_N == 1, "KDF_ONE_COMPRESS: keyed hash of the empty message is exactly one compress call");
+        assert!(B2S.b2_n == 1, "KDF_ONE_COMPRESS: keyed hash of the empty message is exactly one compress call");
         let mut salt = [0u8; 16];
         let idb = id.to_le_bytes();
         let mut i = 0;
@@ -33,19 +33,19 @@ fn c12_check_transcript(len: usize, id: u64, ctx: &[u8; 8], key: &[u8; 32], sub:
         i = 0;
         while i < 8 { pers[i] = ctx[i]; i += 1; }
         let h0 = b2_h0(len as u8, 32, &salt, &pers);
-        assert!(B2_HIN[0][0] == h0[0], "KDF_DIGEST_LENGTH: parameter word 0 = (digest_length=len, key_length=32, fanout=1, depth=1)");
-        assert!(B2_HIN[0][1] == h0[1] && B2_HIN[0][2] == h0[2] && B2_HIN[0][3] == h0[3], "KDF_PARAM_ZERO_WORDS: leaf/node/inner/reserved are zero");
-        assert!(B2_HIN[0][4] == h0[4] && B2_HIN[0][5] == h0[5], "KDF_SALT: salt = LE64(subkey_id) || 0^8");
-        assert!(B2_HIN[0][6] == h0[6] && B2_HIN[0][7] == h0[7], "KDF_PERSONAL: personal = context || 0^8");
-        assert!(B2_T[0][0] == 128 && B2_T[0][1] == 0, "KDF_COUNTER: t = 128 (one key block)");
-        assert!(B2_F[0][0] == u64::MAX && B2_F[0][1] == 0, "KDF_FINAL_FLAG: f0 = ~0, f1 = 0");
+        assert!(B2S.b2_hin[0][0] == h0[0], "KDF_DIGEST_LENGTH: parameter word 0 = (digest_length=len, key_length=32, fanout=1, depth=1)");
+        assert!(B2S.b2_hin[0][1] == h0[1] && B2S.b2_hin[0][2] == h0[2] && B2S.b2_hin[0][3] == h0[3], "KDF_PARAM_ZERO_WORDS: leaf/node/inner/reserved are zero");
+        assert!(B2S.b2_hin[0][4] == h0[4] && B2S.b2_hin[0][5] == h0[5], "KDF_SALT: salt = LE64(subkey_id) || 0^8");
+        assert!(B2S.b2_hin[0][6] == h0[6] && B2S.b2_hin[0][7] == h0[7], "KDF_PERSONAL: personal = context || 0^8");
+        assert!(B2S.b2_t[0][0] == 128 && B2S.b2_t[0][1] == 0, "KDF_COUNTER: t = 128 (one key block)");
+        assert!(B2S.b2_f[0][0] == u64::MAX && B2S.b2_f[0][1] == 0, "KDF_FINAL_FLAG: f0 = ~0, f1 = 0");
         i = 0;
         while i < 128 {
             let want = if i < 32 { key[i] } else { 0 };
-            assert!(B2_BLK[0][i] == want, "KDF_KEY_BLOCK: block = key || 0^96");
+            assert!(B2S.b2_blk[0][i] == want, "KDF_KEY_BLOCK: block = key || 0^96");
             i += 1;
         }
-        let ob = b2_out_bytes(&B2_HOUT[0]);
+        let ob = b2_out_bytes(&B2S.b2_hout[0]);
         i = 0;
         while i < len {
             assert!(sub[i] == ob[i], "KDF_OUTPUT: subkey = first len bytes of the final chaining value");
@@ -83,7 +83,7 @@ fn %(name)s() {
     let r = crypto_kdf_derive_from_key(&mut buf, id, &ctx, &key);
     kani::cover!(true, "reached");
     assert!(r.is_err(), "KDF_REJECT: lengths outside 16..=64 are rejected");
-    unsafe { assert!(B2_N == 0, "KDF_REJECT_NO_HASH: nothing is hashed for a rejected length"); }
+    unsafe { assert!(B2S.b2_n == 0, "KDF_REJECT_NO_HASH: nothing is hashed for a rejected length"); }
 }
 ''' % dict(name=name, ln=ln)
 
@@ -119,7 +119,7 @@ fn %(name)s() {
     let mut buf = [0u8; 96];
     let r = crypto_kdf_derive_from_key(&mut buf[..len], id, &ctx, &key);
     assert!(r.is_err(), "KDF_REJECT: lengths outside 16..=64 are rejected");
-    unsafe { assert!(B2_N == 0, "KDF_REJECT_NO_HASH: nothing is hashed for a rejected length"); }
+    unsafe { assert!(B2S.b2_n == 0, "KDF_REJECT_NO_HASH: nothing is hashed for a rejected length"); }
     kani::cover!(len == 0, "reached len 0");
     kani::cover!(len == 15, "reached len 15");
     kani::cover!(len == 65, "reached len 65");
@@ -158,7 +158,7 @@ fn %(name)s() {
     assert!(r.is_ok());
     unsafe {
         let h0 = b2_h0(32, 33, &[0u8; 16], &[0u8; 16]);
-        assert!(B2_HIN[0][0] == h0[0], "TWIN: deliberately wrong key_length, must fail");
+        assert!(B2S.b2_hin[0][0] == h0[0], "TWIN: deliberately wrong key_length, must fail");
     }
 }
 ''' % dict(name=name)
